@@ -214,6 +214,40 @@ Proof.
   apply nth_error_firstn_lt. lia.
 Qed.
 
+(* structural form of "outside the changes the text is preserved": a text cut into
+   keep_0 old_0 keep_1 old_1 ... final, with old_i replaced by new_i *)
+Definition seg : Type := list A * list A * list A.     (* keep, old, new *)
+
+Fixpoint seg_text (segs : list seg) (fin : list A) : list A :=
+  match segs with [] => fin | (k, o, _) :: r => k ++ o ++ seg_text r fin end.
+Fixpoint seg_new (segs : list seg) (fin : list A) : list A :=
+  match segs with [] => fin | (k, _, n) :: r => k ++ n ++ seg_new r fin end.
+Fixpoint seg_changes (pos : N) (segs : list seg) : list change :=
+  match segs with
+  | [] => []
+  | (k, o, n) :: r => (pos + len k, pos + len k + len o, n) :: seg_changes (pos + len k + len o) r
+  end.
+
+Theorem apply_from_segs pos segs fin :
+  apply_from pos (seg_text segs fin) (seg_changes pos segs) = Some (seg_new segs fin).
+Proof.
+  revert pos. induction segs as [|[[k o] n] r IH]; intros pos; cbn [seg_text seg_changes seg_new apply_from]; [reflexivity|].
+  destruct (N.leb_spec pos (pos + len k)); [|lia].
+  destruct (N.leb_spec (pos + len k) (pos + len k + len o)); [|lia].
+  rewrite !len_app.
+  destruct (N.leb_spec (pos + len k + len o - pos) (len k + (len o + len (seg_text r fin)))); [|lia].
+  cbn [andb].
+  replace (N.to_nat (pos + len k + len o - pos)) with (length (k ++ o)) by (rewrite app_length; unfold len; lia).
+  rewrite app_assoc, skipn_app, skipn_all, Nat.sub_diag, skipn_O. cbn [app].
+  rewrite IH.
+  replace (N.to_nat (pos + len k - pos)) with (length k) by (unfold len; lia).
+  rewrite <- app_assoc, firstn_app, firstn_all, Nat.sub_diag, firstn_O, app_nil_r. reflexivity.
+Qed.
+
+Theorem apply_fix_segs segs fin :
+  apply_fix (seg_text segs fin) (seg_changes 0 segs) = Some (seg_new segs fin).
+Proof. apply apply_from_segs. Qed.
+
 (* the implementation sorts first; on a list that is already valid the sort changes nothing *)
 Lemma ch_sort_valid_id pos total chs : valid_from pos total chs = true -> ch_sort chs = chs.
 Proof.
@@ -252,6 +286,52 @@ Lemma apply_fix_utf8_boundaries (pre mid post : list N) :
 Proof.
   split; [apply boundary_prefix|].
   rewrite app_assoc, <- bytes_app. apply boundary_prefix.
+Qed.
+
+(* several changes: segments of code points, byte offsets by `bytes` *)
+Definition seg_utf8 (sg : @seg N) : @seg N := let '(k, o, n) := sg in (utf8 k, utf8 o, utf8 n).
+
+Fixpoint seg_changes_bytes (pos : N) (segs : list (@seg N)) : list (change N) :=
+  match segs with
+  | [] => []
+  | (k, o, n) :: r => (pos + bytes k, pos + bytes k + bytes o, utf8 n) :: seg_changes_bytes (pos + bytes k + bytes o) r
+  end.
+
+Lemma seg_text_utf8 segs fin : seg_text (map seg_utf8 segs) (utf8 fin) = utf8 (seg_text segs fin).
+Proof.
+  induction segs as [|[[k o] n] r IH]; cbn [map seg_utf8 seg_text]; [reflexivity|].
+  rewrite IH, !utf8_app. reflexivity.
+Qed.
+
+Lemma seg_new_utf8 segs fin : seg_new (map seg_utf8 segs) (utf8 fin) = utf8 (seg_new segs fin).
+Proof.
+  induction segs as [|[[k o] n] r IH]; cbn [map seg_utf8 seg_new]; [reflexivity|].
+  rewrite IH, !utf8_app. reflexivity.
+Qed.
+
+Lemma seg_changes_utf8 pos segs : seg_changes pos (map seg_utf8 segs) = seg_changes_bytes pos segs.
+Proof.
+  revert pos. induction segs as [|[[k o] n] r IH]; intros pos; cbn [map seg_utf8 seg_changes seg_changes_bytes]; [reflexivity|].
+  rewrite IH, !utf8_length. reflexivity.
+Qed.
+
+Theorem apply_fix_utf8_segs segs fin :
+  apply_fix (utf8 (seg_text segs fin)) (seg_changes_bytes 0 segs) = Some (utf8 (seg_new segs fin)).
+Proof. rewrite <- seg_text_utf8, <- seg_new_utf8, <- seg_changes_utf8. apply apply_fix_segs. Qed.
+
+(* every change of such a fix starts and ends on a char boundary *)
+Lemma seg_changes_bytes_boundaries pre segs fin s e n :
+  In (s, e, n) (seg_changes_bytes (bytes pre) segs) ->
+  boundary (pre ++ seg_text segs fin) s /\ boundary (pre ++ seg_text segs fin) e.
+Proof.
+  revert pre. induction segs as [|[[k o] n'] r IH]; intros pre; cbn [seg_changes_bytes seg_text In]; [intros []|].
+  assert (E1 : pre ++ k ++ o ++ seg_text r fin = (pre ++ k ++ o) ++ seg_text r fin) by (rewrite <- !app_assoc; reflexivity).
+  assert (E2 : bytes pre + bytes k + bytes o = bytes (pre ++ k ++ o)) by (rewrite !bytes_app; lia).
+  intros [H|H].
+  - injection H as Hs He _. subst s e. split.
+    + rewrite app_assoc, <- bytes_app. apply boundary_prefix.
+    + rewrite E1, E2. apply boundary_prefix.
+  - rewrite E1. rewrite E2 in H. apply IH. exact H.
 Qed.
 
 (* ------------------------------------------------------------------ "apply the first fix repeatedly" *)
